@@ -58,7 +58,7 @@ CLAIMED = {
          "Design: NoOverlap / WideEnough / Refines / success guarantee at length 4; the scan range as rig coded it violates SuccessFirstFit (fixed in repo); cross-scope first-fit fragmentation refuted (known finding). Conformance: exhaustive small-scope and random histories; clauses NoOverlap, WideEnough, ReadBack, MaskIsUnion, TagsClosed, KeysDistinct, RejectsBadExplicit, MustSucceed*.",
          "Trusted: TLC, table extraction in harness/props/c08.py. Bit fields up to 32 bits. Two known findings are listed in known_findings.json.",
          "DESIGN.md §6 C08"),
- "C09": ("TLA+ specs LoadApp (flood-fill packets, receiver rules; extends Regions) + LoadAppDesign (client retry loop x per-chip receivers, packet by packet; count-mode and overwrite variants refuted) + LoadAppTrace validating real load_application runs against the simulated machine + job R: scenarios and miss schedules chosen by TLC's simulator (LoadAppSim) replayed through the real loader and judged by LoadAppReplayTrace (outcome, attempts, cores addressed, state after each attempt as the design predicts)",
+ "C09": ("TLA+ specs LoadApp (flood-fill packets, receiver rules; extends Regions) + LoadAppDesign (client retry loop x per-chip receivers, packet by packet; count-mode and overwrite variants refuted) + LoadAppTrace validating real load_application runs against the simulated machine + job R: scenarios and miss schedules chosen by TLC's simulator (LoadAppSim) replayed through the real loader and judged by LoadAppReplayTrace (outcome, attempts, cores addressed, state after each attempt as the design predicts); hosts, beyond the property, Lifecycle / LifecycleDesign / LifecycleTrace (the application life cycle from probe to stop next to a foreign application)",
          "Design: every assignment / miss pattern / n_tries / mode at 2 chips x 2 cores (0.1-3 M states, incl. termination). Conformance: exhaustive miss schedules at small scope + random; 30+ clauses incl. StartAnnouncesBlocks, BlocksConsecutive, ImageReassembles, SelectsExactTargets, RetriesOnlyMissing, ReturnedMeansAllLoaded, RaisedNamesExactlyMissing, SimulatorCommitMatchesModel.",
          "Trusted: TLC, simulator as environment (validated by Simulator* clauses). Assumptions: whole-word binaries < 256 blocks; use_count only without foreign waiting cores (its documented precondition, refuted otherwise in the design job); reloading over a waiting core is outside the domain.",
          "DESIGN.md §6 C09"),
@@ -74,7 +74,7 @@ CLAIMED = {
          "Design: 0.17-0.76 M states: MergedAgrees, MechanismAgrees, ExitRestores, StopsOwnApp. Conformance: 42 + 7 methods found by introspection, arguments passed positionally / by keyword / from nested contexts / by default, exits by exception, discovered connections; clauses ResolvedX/Y/P/AppId, RequiredRejectedBeforeSend, NothingSentOnReject, ExitRestores, ApplicationExitStops, RightConnection.",
          "Trusted: TLC, the datagram decoder of the fake machine in harness/props/c18.py. Five known findings (context core leaking into internal reads of five methods) are listed in known_findings.json.",
          "DESIGN.md §6 C18"),
- "C06": ("TLA+ specs Scp / ScpDesign (client loop + network + clock; safety invariants, NoEarlyRetransmit, termination under fairness; the no-lifetime variant refuted) + ScpTrace validating every datagram / callback / exception of the real send_scp_burst on a virtual-time lossy network, incl. schedules taken from tlc -simulate behaviours",
+ "C06": ("TLA+ specs Scp / ScpDesign (client loop + network + clock; safety invariants, NoEarlyRetransmit, termination under fairness; the no-lifetime variant refuted) + ScpTrace validating every datagram / callback / exception of the real send_scp_burst on a virtual-time lossy network, incl. schedules taken from tlc -simulate behaviours; ScpWindow / ScpWindowInd (Apalache: an inductive invariant of the windowed client for unbounded window, tries, sequence space and clock against a network that may present any sequence number; five wrong clients refuted)",
          "Design: 0.26 M states quick (3 commands, window 1-2, tries 1-2, 4 sequence numbers, 2 bursts) + a wrap configuration; 2.9 M thorough; liveness checked. Conformance: exhaustive schedule trees at small scope (alphabet lost / ok / at-deadline / late / dup / busy / fatal), TLC-simulated schedules, random connections with 1-3 bursts: WindowBound, SeqNotOutstanding, NoEarlyRetransmit, TriesBound, AtMostOnce, RightReply, ExactlyOnce, ReturnedComplete, TimeoutHonest, FatalRaises, Terminates.",
          "Trusted: TLC, harness/env/net.py (environment and recorder). Assumption: a reply is not delivered after its sequence number was re-issued by the protocol's own allocation rule (reference allocator in the environment; the design job shows the wrong-callback interleaving without it). Time is virtual in 0.25 s ticks.",
          "DESIGN.md §6 C06"),
